@@ -53,7 +53,7 @@ struct St {
     std::set<int> maybe_erased;              // erase threw (allocation fault): presence afterwards is unspecified until a clean erase
     int cur_push_value[vrt::MAXF]; bool cur_push_front[vrt::MAXF];
     const void* paused_on[vrt::MAXF];
-    bool lbl_dealloc_under_handle = false, lbl_paused_on_erased = false, lbl_trav_overlap = false, lbl_records_reclaimed = false, lbl_push_threw = false;
+    bool lbl_dealloc_under_handle = false, lbl_paused_on_erased = false, lbl_trav_overlap = false, lbl_records_reclaimed = false, lbl_push_threw = false, lbl_straight_to_dtor = false;
     long deallocs_nodes = 0;
     int next_value = 100;
     bool track_keys = false;
@@ -301,8 +301,11 @@ vh::Outcome run_rcu(const vh::Case& c, Prop prop) {
             }
             vrt::join_all();
             vrt::disable_faults();
-            // final contents == sequential model (mutex order)
-            {
+            // final contents == sequential model (mutex order).  A final handle's release reclaims every retired node, so for C13 half of
+            // the cases go straight to list destruction: whatever is still retired then must be destroyed and freed by ~rcu_list.
+            size_t total_ops = 0; for (auto& f : c.fibers) total_ops += f.size();
+            if (prop == P_C13 && (total_ops & 1)) st.lbl_straight_to_dtor = true;
+            else {
                 std::vector<int> fin;
                 {
                     auto h = rl.lock_read();
@@ -340,6 +343,7 @@ vh::Outcome run_rcu(const vh::Case& c, Prop prop) {
     if (st.lbl_paused_on_erased) out.labels.push_back("paused-on-erased");
     if (st.lbl_trav_overlap) out.labels.push_back("traversal-overlapped-mutation");
     if (st.lbl_records_reclaimed) out.labels.push_back("records-freed-under-live-handle");
+    if (st.lbl_straight_to_dtor) out.labels.push_back("destroyed-without-final-handle");
     if (L.null_destroy || L.null_dealloc) out.labels.push_back("null-destroy-seen");
     if (erases_done) out.labels.push_back("erased");
     if (st.lbl_push_threw) out.labels.push_back("element-construction-threw");
